@@ -140,6 +140,44 @@ theorem digestDiff_same {c : Cfg} {s : St} {r : Rec} {t : Tob} (h : s.digestDiff
       · rename_i hc; exact Or.inr hc
       · cases h
 
+theorem carryDiff_different {c : Cfg} {s : St} {r : Rec} {t : Tob} {a : Digest}
+    (h : s.carryDiff c r t = .different a) :
+    ∃ b n, s.readThrough r.path = some (b, n) ∧ a = digestOf c.algo t b := by
+  unfold St.carryDiff at h
+  split at h
+  · exact digestDiff_different h
+  · split at h
+    · split at h <;> cases h
+    · rename_i b n hr
+      split at h
+      · cases h
+      · cases h; exact ⟨b, n, hr, rfl⟩
+
+theorem carryDiff_same {c : Cfg} {s : St} {r : Rec} {t : Tob} (h : s.carryDiff c r t = .same) :
+    s.readThrough r.path = none ∨
+    (∃ b n, s.readThrough r.path = some (b, n) ∧ (r.md = .stamp n ∨ r.cur = some (digestOf c.algo t b))) := by
+  unfold St.carryDiff at h
+  split at h
+  · exact digestDiff_same h
+  · split at h
+    · rename_i hr; exact Or.inl hr
+    · rename_i b n hr
+      right
+      refine ⟨b, n, hr, ?_⟩
+      split at h
+      · rename_i hc; exact Or.inr hc
+      · cases h
+
+/-- when the mode changes the comparison does not rely on the metadata: "unchanged" means that the
+    recorded digest IS the digest of the present bytes in the requested mode -/
+theorem carryDiff_same_mode_change {c : Cfg} {s : St} {r : Rec} {t : Tob} (ht : r.tob ≠ t) (h : s.carryDiff c r t = .same)
+    {b : Bytes} {n : Nat} (hr : s.readThrough r.path = some (b, n)) : r.cur = some (digestOf c.algo t b) := by
+  unfold St.carryDiff at h
+  simp only [ht, if_false, hr] at h
+  split at h
+  · assumption
+  · cases h
+
 theorem findEnt_path {s : St} {p : Path} {e : Ent} (h : s.findEnt p = some e) :
     ∃ r, s.recs e = some r ∧ r.path = p := by
   unfold St.findEnt at h
@@ -160,7 +198,7 @@ theorem carryInRec_from (c : Cfg) (tob : Option Tob) (force : Bool) (s : St) (p 
     · exact CacheFrom.refl s
     · -- different
       rename_i a hdd
-      obtain ⟨b, n, hr, ha⟩ := digestDiff_different hdd
+      obtain ⟨b, n, hr, ha⟩ := carryDiff_different hdd
       rw [hpath] at hr
       apply CacheFrom.trans (s' := (s.carryOne p (addrOf p a) r.method force).1) _ (cacheFrom_of_eq rfl)
       apply carryOne_from
@@ -173,7 +211,7 @@ theorem carryInRec_from (c : Cfg) (tob : Option Tob) (force : Bool) (s : St) (p 
       apply CacheFrom.trans (s' := (s.carryOne p (addrOf p d) r.method force).1) _ (cacheFrom_of_eq rfl)
       apply carryOne_from
       intro b' w st l hw
-      rcases digestDiff_same hdd with hn | ⟨b, n, hr, hor⟩
+      rcases carryDiff_same hdd with hn | ⟨b, n, hr, hor⟩
       · rw [hpath] at hn; simp [St.readThrough, hw] at hn
       · rw [hpath] at hr
         have := read_file_eq hr hw
